@@ -176,6 +176,29 @@ func FuzzC10(f *testing.F) {
 		c.Cfg = ref.OCRACfg{Raw: string(c.S[3]), Hash: int(p.byte()), Digits: int(int8(p.byte())), C: mask&1 != 0, Q: mask&2 != 0, P: mask&4 != 0, S: mask&8 != 0, T: mask&16 != 0,
 			QFormat: int(int8(p.byte())), PHash: int(int8(p.byte())), TimeStep: int(int8(p.byte())), SessionNN: -1}
 		c.SuiteBy, c.NilP, c.URLKind, c.Hostile = p.intn(4), p.byte()&7 == 0, p.intn(3), true
+		if p.byte()&1 == 1 {
+			// usable configuration and admissible inputs with ONE hostile ingredient (as in the rapid generator)
+			c.Cfg.Hash, c.Cfg.Digits, c.Cfg.QFormat, c.Cfg.PHash, c.Cfg.TimeStep = c.Algo%3, 4+c.Digits%7, 1+c.Digits%6, 1+c.Algo%3, 1
+			c.BNil = [5]bool{}
+			c.B[0], c.B[4] = make([]byte, 8), make([]byte, 8)
+			c.B[1] = make([]byte, ref.QMin(c.Cfg.QFormat)+p.intn(100))
+			c.B[2] = make([]byte, ref.PLen(c.Cfg.PHash))
+			c.B[3] = make([]byte, p.intn(129))
+			switch p.intn(5) {
+			case 0:
+				c.Cfg.PHash = int(int8(p.byte()))
+				c.B[2] = make([]byte, int(p.byte())*4)
+			case 1:
+				c.Cfg.QFormat = int(int8(p.byte()))
+				c.B[1] = make([]byte, int(p.byte()))
+			case 2:
+				c.B[p.intn(5)] = make([]byte, int(p.byte())*3)
+			case 3:
+				c.BNil[p.intn(5)] = true
+			default:
+				c.Cfg.TimeStep = int(int8(p.byte()))
+			}
+		}
 		fuzzFail(t, c10Main, c)
 	})
 }
